@@ -48,9 +48,11 @@ theorem viewAt_of_PAt {root : Root} {r p : Nat} {pr : PeriodR} (h : PAt root r p
   obtain ⟨rr, h1, h2⟩ := h
   simp [viewAt, h1, h2]
 
-/-- a threshold event has the kind of its step (`voteTracker`: `eventKind`) -/
+/-- a threshold event has the kind of its step (`voteTracker`: `eventKind`), and a soft / cert threshold is never for
+bottom (`voteTrackerContract.post`) -/
 def KindOK (e : Thresh) : Prop :=
-  e.kind = 0 ∨ (e.kind = 1 ∧ e.step = 1) ∨ (e.kind = 2 ∧ e.step = 2) ∨ (e.kind = 3 ∧ e.step ≠ 1 ∧ e.step ≠ 2)
+  e.kind = 0 ∨ (e.kind = 1 ∧ e.step = 1 ∧ e.proposal ≠ 0) ∨ (e.kind = 2 ∧ e.step = 2 ∧ e.proposal ≠ 0) ∨
+    (e.kind = 3 ∧ e.step ≠ 1 ∧ e.step ≠ 2)
 
 theorem kindOK_empty : KindOK {} := Or.inl rfl
 
@@ -669,6 +671,7 @@ theorem accept_kind (hg : GoodSpec good) {r p s : Nat} {x : Vote} {sr sr' : Step
   have hcons : Consistent (vs ++ [x]) := fun a ha b hb hs => hg.cons r p s a b (hall' a ha) (hall' b hb) hs
   split at h
   · cases h
+  rename_i hbad
   simp only [Except.ok.injEq, Prod.mk.injEq] at h
   obtain ⟨_, rfl⟩ := h
   cases ev with
@@ -677,13 +680,17 @@ theorem accept_kind (hg : GoodSpec good) {r p s : Nat} {x : Vote} {sr sr' : Step
     have hk := ((Props.C06.threshold_exact hR hpos hcons hh).2 k v b rfl).2.2
     refine ⟨?_, fun _ => ⟨rfl, rfl, rfl⟩⟩
     show KindOK ⟨k, r, p, s, v, b⟩
+    simp only [vtPost, Bool.or_eq_true, Bool.and_eq_true, not_or] at hbad
+    have hbot : ¬ ((v == 0) = true ∧ decide (s < 3) = true) := hbad.1.2
     subst hk
     unfold KindOK eventKind cfgOf
     simp only []
     by_cases h1 : s = 1
-    · simp [h1]
+    · have hv : v ≠ 0 := by intro hv; exact hbot (by simp [hv, h1])
+      simp [h1, hv]
     · by_cases h2 : s = 2
-      · simp [h2]
+      · have hv : v ≠ 0 := by intro hv; exact hbot (by simp [hv, h2])
+        simp [h2, hv]
       · simp [h1, h2]
 
 theorem pr_voteAccepted_g (hs : GSpec P good G) (hg : GoodSpec good) {r p s : Nat} {x : Vote} {pr pr' : PeriodR} {ev : Thresh}
